@@ -8,6 +8,7 @@ type PropertyPlan struct {
 	NotDecided  []string
 	Assumptions []string
 	Extra       func(cc *checkCtx) *extraResult
+	Demos       []findingDemo // demonstrations of recorded defects, re-run on every check (KNOWN-FINDING while present)
 }
 
 var descentLattice = overlayTest{Name: "descent-lattice", Level: "bounded", Src: "descent_lattice_test.go", PkgRel: "pointindex", Run: "^TestGvcDescentLattice$",
@@ -52,5 +53,44 @@ func init() {
 			"points closer than 1e-9 to a tile border", "IEEE-754 rounding of the float64 operations (float64 is treated as a real number)",
 			"the contents of the EPSG axis table (data; IsLatLon is trusted)"},
 		Assumptions: []string{"float64 treated as real numbers", "points less than 9e18 tiles away from the origin (uint(x) of larger values is implementation-defined)"},
+	}
+}
+
+var totalSmall = overlayTest{Name: "snap-total-small", Level: "bounded", Src: "c06_total_small_test.go", PkgRel: "snap", Run: "^TestGvcC06TotalSmall$",
+	Bound: "bounded stand-in for the ring assembly (kmpDeduplicate, splitRing, dedupeInnersOuters, matchInnersToPolygons, RemoveSequences) and the no-points-found guard: the real SnapPolygon on every single ring of 1..5 (quick) / 1..6 (thorough) vertices over a 3x3 lattice of pixel centres, corners and border points, 3 id sets x 4 flag combinations, plus 20000 / 300000 random polygons of up to 3 rings; a panic or a run over 5 s fails"}
+
+func init() {
+	propertyPlans["C06"] = &PropertyPlan{ID: "C06",
+		AlsoFuncs: []string{"snap.SnapPolygon"},
+		NotDecided: []string{
+			"that the ring assembly (cleanupNewRing = kmpDeduplicate + splitRing, dedupeInnersOuters, matchInnersToPolygons, sortPolyIdxsByOuterAreaDesc, RemoveSequences) neither panics nor loops: outside the verifier's reach, only the bounded stand-in snap-total-small",
+			"that cleanupNewVertices never sees an empty list (panicNoPointsFoundForVertices): it needs that every inserted vertex keeps a stored pixel on every level, which is not carried through the insertion contracts yet; covered by the bounded stand-in only",
+			"time bound (polynomial in the vertex count): termination of every loop of the verified functions is proved by decreases clauses, no complexity statement",
+			"tile matrices whose pixel level exceeds 32: known finding F6 (excluded by the precondition of SnapPolygon's contract)"},
+		Assumptions: []string{"preconditions of SnapPolygon's contract (ids in [0,1000], indexable tile matrix set, level <= 32, |ordinate| < 2e8, round grid)",
+			"trusted leaves ensureCorrectWindingOrder, cleanupNewRing, dedupeInnersOuters, outersToPolygons, matchInnersToPolygons, reverseWindingOrderIfConfigured: only that they return (or panic) without touching the index; callers treat their panic as possible"},
+		Extra: func(cc *checkCtx) *extraResult { return cc.runOverlayTests([]overlayTest{totalSmall}) },
+		Demos: []findingDemo{{ID: "F6", Src: "f6_level_above_32_test.go", PkgRel: "snap", Run: "^TestGvcFindingF6$"}},
+	}
+	propertyPlans["C08"] = &PropertyPlan{ID: "C08",
+		NotDecided: []string{
+			"second sentence (the geometry for a tile matrix is identical whether requested alone or together with others): a relation between two executions; what is proved per call is that the lists of the descent for a level are exactly the stored pixels of that level met by the edge (C02 contracts), that per-level results never share a backing array (alias discipline of the verifier: append to a re-sliced slice is rejected), and the id <-> level mapping",
+			"that the set of stored pixels of a coarser level does not depend on the deepest level (insertCoord's invariants are assumed, not proved)"},
+		Assumptions: []string{"preconditions of SnapPolygon's contract"},
+		Extra:       func(cc *checkCtx) *extraResult { return cc.runOverlayTests([]overlayTest{descentLattice}) },
+	}
+	propertyPlans["C05"] = &PropertyPlan{ID: "C05",
+		NotDecided: []string{
+			"orientation, closure, no repeated vertex, at least three vertices per ring, shell first: properties of the unverified ring assembly (trusted leaves); known defect F4 (float round trip in isHitMultiple) lives there",
+			"the keep-points-and-lines relation between two runs (with and without the option)"},
+		Assumptions: []string{"preconditions of SnapPolygon's contract", "ring assembly leaves trusted only for outersToPolygons: one polygon per outer ring; matchInnersToPolygons: never fewer polygons than it was given"},
+	}
+	propertyPlans["C03"] = &PropertyPlan{ID: "C03",
+		NotDecided: []string{
+			"that the ring assembly only rearranges or drops the coordinates handed out by SnapClosestPoints (trusted leaves, no element-wise specification)",
+			"that insertCoord stores pixels with the extent and centre of the grid formula (indexGrid is an assumed postcondition of insertCoord; FromTileMatrixSet, InsertPoint, InsertCoord, InsertPolygon and the descent are proved to preserve / use it)",
+			"second sentence (bound by the reported deviation for grids that do not divide evenly): DeviationStats is only proved panic-free"},
+		Assumptions: []string{"float64 as real numbers: centre / 1e10 is exact", "preconditions of SnapPolygon's contract"},
+		Extra:       func(cc *checkCtx) *extraResult { return cc.runOverlayTests([]overlayTest{descentLattice}) },
 	}
 }
